@@ -19,8 +19,9 @@ CASES = os.path.join(COQ, "Cases")
 # OV_SCRATCH=1 (used only while trying seeded changes by hand): evidence and replays go to /tmp, so that
 # the committed evidence always comes from runs on the unchanged tree
 _SCRATCH = os.environ.get("OV_SCRATCH") == "1"
-EVID = "/tmp/ov-scratch/evidence" if _SCRATCH else os.path.join(VERIF, "evidence")
-REPLAYS = "/tmp/ov-scratch/replays" if _SCRATCH else os.path.join(VERIF, "replays")
+_SCRATCH_DIR = os.environ.get("OV_SCRATCH_DIR", "/tmp/ov-scratch")
+EVID = os.path.join(_SCRATCH_DIR, "evidence") if _SCRATCH else os.path.join(VERIF, "evidence")
+REPLAYS = os.path.join(_SCRATCH_DIR, "replays") if _SCRATCH else os.path.join(VERIF, "replays")
 PY = "/venv/bin/python"
 QFLAGS = ["-Q", "Model", "OV.Model", "-Q", "Gen", "OV.Gen", "-Q", "Props", "OV.Props"]
 NCPU = os.cpu_count() or 4
